@@ -307,7 +307,7 @@ func (tp *TableParser) parseCellParagraph(p paragraphXML) parsedParagraph {
 
 	// Extract text from runs
 	var textParts []string
-	for _, run := range p.Runs {
+	for _, run := range p.runs() {
 		// Same extraction as for body paragraphs: text, tabs, breaks, symbols
 		if text := runText(run); text != "" {
 			textParts = append(textParts, text)
